@@ -29,7 +29,7 @@ const (
 var ModuleName = []string{"flow", "isolation", "hotspot", "circuitbreaker", "system", "outlier"}
 
 // NumVariants per module (0,1 valid; others invalid).
-var NumVariants = []int{12, 5, 10, 9, 5, 6}
+var NumVariants = []int{12, 5, 10, 10, 5, 6}
 
 type RS struct {
 	M   int  `json:"m"`
@@ -264,6 +264,9 @@ func BuildBreaker(r RS) *cb.Rule {
 		x.MinRequestAmount, x.Strategy, x.Threshold = 0, cb.ErrorRatio, -1
 	case 8:
 		x.MinRequestAmount, x.Strategy, x.Threshold = 0, cb.SlowRequestRatio, -0.1
+	case 9:
+		// a strategy nobody registered a breaker generator for: no breaker can exist, so it must not be reported
+		x.MinRequestAmount, x.Strategy, x.Threshold = 0, cb.Strategy(7), 0
 	}
 	if r.Var <= 1 {
 		switch r.Hid {
